@@ -71,16 +71,32 @@ def gen_penalties(rng):
     po = w + F(rng.randint(0, 32), 8)
     pp = w + F(rng.randint(0, 32), 8)
     pe = max(po, pp) + F(rng.randint(0, 64), 8)
-    return {"enc": pe, "ovl": po, "prec": pp, "opt": w, "share": rng.choice([F(0), F(0), F(1, 4), F(1, 2), F(1)])}
+    # a common scale (a power of two, so every double stays exact): the documented regime only orders the weights, it does not fix their magnitude
+    sc = F(2) ** rng.choice([0, 0, 0, -20, -27, -30, -34, -40, 12, 30]) if m == 5 else F(1)
+    return {"enc": pe * sc, "ovl": po * sc, "prec": pp * sc, "opt": w * sc, "share": rng.choice([F(0), F(0), F(1, 4), F(1, 2), F(1)])}
+
+
+def name_style(jobs, limit):
+    """how jobs/operations are named — a function of the instance, so a replay builds the same objects.  'collide': operation oi of EVERY job has
+    the same Operation.identifier (job_name + "_" + name) although job names are distinct and operation names are unique within each job
+    (job "j" / op "x_o0", job "j_x" / op "o0": both "j_x_o0") — legal, and the encoder must still tell the operations apart."""
+    return "collide" if len(jobs) >= 2 and (sum(d for j in jobs for _, d in j) + limit + len(jobs)) % 3 == 0 else "plain"
+
+
+def names_of(jobs, limit):
+    nj = len(jobs)
+    if name_style(jobs, limit) == "collide":
+        return [("j" + "_x" * ji, ["x_" * (nj - 1 - ji) + f"o{oi}" for oi in range(len(j))]) for ji, j in enumerate(jobs)]
+    return [(f"j{ji}", [f"o{oi}" for oi in range(len(j))]) for ji, j in enumerate(jobs)]
 
 
 def build(jobs, limit, pen=None):
     machines = sorted({m for j in jobs for m, _ in j})
     ms = {m: Machine(f"m{m}") for m in machines}
     pj = []
-    for ji, j in enumerate(jobs):
-        ops = tuple(Operation(f"o{oi}", f"j{ji}", ms[m], d) for oi, (m, d) in enumerate(j))
-        pj.append(Job(f"j{ji}", ops))
+    for (jn, ons), j in zip(names_of(jobs, limit), jobs):
+        ops = tuple(Operation(on, jn, ms[m], d) for on, (m, d) in zip(ons, j))
+        pj.append(Job(jn, ops))
     inst = JobShopSchedulingProblemInstance("inst", tuple(ms[m] for m in machines), tuple(pj))
     if pen is None:
         enc = JSSPDomainWallHamiltonianEncoder(inst, limit)
@@ -91,17 +107,40 @@ def build(jobs, limit, pen=None):
     return inst, enc
 
 
+class Var:
+    """layout of one start-time variable, computed from the instance alone (the documented scheme): values head .. limit - tail - duration,
+    one qubit less than values, qubits allotted in job/operation order"""
+
+    def __init__(self, start, values):
+        self._qubit_start_index = start
+        self.values = tuple(values)
+        self.n_qubits = max(len(self.values) - 1, 0)
+
+
+def layout(jobs, limit):
+    out, q = [], 0
+    for j in jobs:
+        row, head, total = [], 0, sum(d for _, d in j)
+        for _, d in j:
+            vals = range(head, limit - (total - head - d) - d + 1)
+            row.append(Var(q, vals))
+            q += max(len(vals) - 1, 0)
+            head += d
+        out.append(row)
+    return out
+
+
 def diagonal(H, n):
     """all 2^n eigenvalues of a SparsePauliOp made of I/Z strings; index = integer value of the bitstring
     (qubit q = bit q of the index).  Returns (array, sum of |coefficients|) or raises ValueError if not diagonal."""
-    Hs = H.simplify()
+    Hs = H.simplify(atol=0.0, rtol=0.0)  # merge equal strings only: the default tolerances are ABSOLUTE (1e-8) and would hide small penalties
     idx = np.arange(2**n, dtype=np.uint64)
     out = np.zeros(2**n, dtype=float)
     scale = 0.0
     for label, coeff in zip(Hs.paulis.to_labels(), Hs.coeffs):
         if any(ch not in "IZ" for ch in label):
             raise ValueError("Hamiltonian is not diagonal: " + label)
-        if abs(coeff.imag) > 1e-12:
+        if abs(coeff.imag) > 1e-12 * abs(coeff):
             raise ValueError("complex coefficient")
         mask = 0
         for pos, ch in enumerate(label):
@@ -212,16 +251,21 @@ def analyse(ctx, prop, jobs, limit, pen, tag, max_diag_qubits):
     # ---- preparation / qubit count / rejection of short limits (C15)
     try:
         n = enc.n_qubits
-        impl_prep = {"n_qubits": n, "vars": [[[enc._operation_start_variables[op]._qubit_start_index,
-                                               enc._operation_start_variables[op].values[0],
-                                               len(enc._operation_start_variables[op].values)] for op in job.operations] for job in inst.jobs]}
+        impl_prep = {"n_qubits": n}
     except ValueError:
         n, impl_prep = None, {"err": "limitTooShort"}
     except Exception as e:  # noqa: BLE001
         n, impl_prep = None, {"exc": repr(e)[:100]}
+    if n is not None:
+        try:  # the encoder's internal tables (private): compared with the model when readable; everything else below uses the public interface
+            impl_prep["vars"] = [[[enc._operation_start_variables[op]._qubit_start_index, enc._operation_start_variables[op].values[0],
+                                   len(enc._operation_start_variables[op].values)] for op in job.operations] for job in inst.jobs]
+        except Exception as e:  # noqa: BLE001
+            impl_prep["vars"] = "internal variable table not readable per operation: " + type(e).__name__
     nontrivial = n is not None and n >= 2 and len(jobs) >= 2
     ctx.case(inp, nontrivial, tags=[tag, f"jobs:{len(jobs)}", "short" if limit < longest else f"qubits:{n if n is not None and n < 12 else '12+'}",
-                                    "share0" if pen["share"] == 0 else "share>0"])
+                                    "share0" if pen["share"] == 0 else "share>0", "names:" + name_style(jobs, limit),
+                                    "pen-scale:" + ("tiny" if pen["enc"] < F(1, 1000) else "huge" if pen["enc"] > 10**6 else "unit")])
     if (limit < longest) != (impl_prep.get("err") == "limitTooShort"):
         violate("C15", "a makespan limit shorter than some job is not rejected / a sufficient limit is rejected", impl_prep)
     if n is not None and n != nq_expected:
@@ -252,7 +296,7 @@ def analyse(ctx, prop, jobs, limit, pen, tag, max_diag_qubits):
     except ValueError as e:
         violate("C01", "the Hamiltonian is not diagonal in the computational basis", str(e))
         return
-    tol = 1e-9 * (1.0 + scale)
+    tol = 1e-9 * scale  # relative to the coefficient scale: the property is invariant under a common rescaling of all weights
     W, Pp, Po, Pe, share = (float(pen[k]) for k in ("opt", "prec", "ovl", "enc", "share"))
     # ---- decode every bitstring (C15: total, within bounds, injective)
     decoded = []
@@ -413,9 +457,8 @@ def analyse_sparse(ctx, prop, jobs, limit, pen, tag):
     bitstrings = []
     for sch in feas:
         state = 0
-        for job, row in zip(inst.jobs, sch):
-            for op, s in zip(job.operations, row):
-                v = enc._operation_start_variables[op]
+        for vrow, row in zip(layout(jobs, limit), sch):
+            for v, s in zip(vrow, row):
                 k = list(v.values).index(s)
                 state |= ((1 << k) - 1) << v._qubit_start_index
         bs = format(state, f"0{n}b")
@@ -490,8 +533,8 @@ def analyse_structured(ctx, prop, jobs, limit, pen, tag):
         violate("C15", "no diagonal Hamiltonian for a valid instance and limit", repr(e)[:100])
         return
     scale = sum(abs(c) for _, c in terms)
-    tol = 1e-9 * (1.0 + scale)
-    ops = [(ji, oi, enc._operation_start_variables[op]) for ji, job in enumerate(inst.jobs) for oi, op in enumerate(job.operations)]
+    tol = 1e-9 * scale  # relative to the coefficient scale: the property is invariant under a common rescaling of all weights
+    ops = [(ji, oi, v) for ji, vrow in enumerate(layout(jobs, limit)) for oi, v in enumerate(vrow)]
     sizes = [len(v.values) for _, _, v in ops]
     total_valid = int(np.prod(sizes))
     if total_valid > 60000:
